@@ -65,3 +65,28 @@ int fx_family_mixed_s(void *dest, size_t dmax, int ch) {
     if (ch > 255) { invoke_safe_str_constraint_handler("ch exceeds max", dest, ESLEMAX); return ESLEMAX; }
     return 0;
 }
+/* status discipline of a formatting engine: the output callback's negative status must be handed up */
+typedef int (*fx_out_t)(char c, void *buffer, size_t idx, size_t maxlen);
+int fx_fmt_pad_good(fx_out_t out, char *buffer, size_t idx, size_t maxlen, size_t width) {
+    while (idx < width) {
+        int rc = out(' ', buffer, idx++, maxlen);
+        if (rc < 0)
+            return rc;
+    }
+    return (int)idx;
+}
+int fx_fmt_pad_dropped(fx_out_t out, char *buffer, size_t idx, size_t maxlen, size_t width) {
+    int rc = 0;
+    while (idx < width) {
+        out(' ', buffer, idx++, maxlen);          /* the status is lost, the stale rc is tested */
+        if (rc < 0)
+            return rc;
+    }
+    return (int)idx;
+}
+int fx_fmt_use(fx_out_t out, char *buffer, size_t maxlen) {
+    int rc = fx_fmt_pad_good(out, buffer, 0, maxlen, 4);
+    if (rc < 0)
+        return rc;
+    return fx_fmt_pad_dropped(out, buffer, (size_t)rc, maxlen, 8);
+}
